@@ -77,6 +77,14 @@ def specFieldsGo {α : Type} (cls : α → Cls) : Nat → List α → List (List
 def specFields {α : Type} (cls : α → Cls) (xs : List α) : List (List α) :=
   specFieldsGo cls (xs.length + 1) (dropWsF cls xs)
 
+/-- `expand_word_multiple` as POSIX describes it: initial expansion, then every field split by the
+    recursive splitter `specFields` under the IFS in force after the expansion, then quote removal -/
+def specExpandWordMultiple (env : Env) (w : Word) : Env × Except Err (List (List Char)) :=
+  match expandWord env true w with
+  | (env', .error e) => (env', .error e)
+  | (env', .ok ph) =>
+    (env', .ok ((ph.toFields.flatMap (specFields env'.ifs.classifyAttr)).map removeQuotesAndStrip))
+
 /-! ## Phrase denotation -/
 
 /-- concatenation of two lists of fields: last of the left glued to first of the right -/
